@@ -269,8 +269,39 @@ func runGbCase(c J, uniq string, emit func(J)) {
 	}
 	ev["read"] = read
 	ev["fixed"] = text.String() == text2.String()
+	// every sixth case: the same text handed to the scanner in two reads, cut at every offset; the re-written
+	// stream must not depend on where the reader's buffer ends
+	ev["splitdiff"] = -1
+	gbCaseCounter++
+	if t1 := text.String(); ev["fixed"] == true && errs == "" && len(t1) <= 4000 && gbCaseCounter%6 == 0 {
+		for cut := 1; cut < len(t1); cut++ {
+			diff := func() (d bool) {
+				defer func() {
+					if e := recover(); e != nil {
+						d = true
+					}
+				}()
+				sc := seqio.NewAutoScanner(newSplitReader(t1, cut))
+				var b strings.Builder
+				for sc.Scan() {
+					t, perr := writeGenBank(sc.Value())
+					if perr != nil {
+						return true
+					}
+					b.WriteString(t)
+				}
+				return sc.Err() != nil || b.String() != t1
+			}()
+			if diff {
+				ev["splitdiff"] = cut
+				break
+			}
+		}
+	}
 	emit(ev)
 }
+
+var gbCaseCounter int
 
 // roundTripEvent writes seq, scans it back, writes again and logs both sides.
 func roundTripEvent(id string, step string, seq gts.Sequence, emit func(J)) {
